@@ -222,7 +222,7 @@ CHECKS['C09'] = dict(
          'iter_segments for no loop id and every segment-anchored loop id of the map on generated documents of all maps (repeated '
          'interchanges/groups/sets included), compared with the model and with an independent oracle (partition, rooting, instance count, '
          'nesting = map path, seg_count and line carried).',
-    note=COMMON_NOTE + ' Consistent is also PROVED for the outputs of the Walker model on generated documents (answers_consistent, partition_generated and the _multi forms) under the decidable map hypotheses CtxMapOK and LidOK; on real traces it is evaluated by the driver.',
+    note=COMMON_NOTE + ' Consistent is PROVED for the answers derived from the Walker model on EVERY segment sequence (answers_consistent_any; partition_located, tree_is_maximal_instance_located, ... need no hypothesis on the run) under the decidable map hypotheses WFMap, ShapeUnamb, CtxMapOK and LidOK, which hold for all shipped maps / loop ids except the listed ones; on real traces it is also evaluated by the driver. The composed model ctxDoc (from text) has ctxDoc_partition_generated and ctxDoc_total_full_sites.',
     technique='Lean 4 proof (yields = plain segments + maximal loop instances for all consistent answer lists) + per-(document, loop id) differential and oracle',
     design='DESIGN.md §3 C09')
 
